@@ -236,16 +236,10 @@ structure BM (α : Type) where
   num : Nat
 deriving Repr
 
-/-- the parabolic-fit block (lines 79-101): returns `(golden, rat, e)` -/
-def bmParabola (s : BM α) : Bool × α × α :=
-  let r := (s.xf - s.nfc) * (s.fx - s.ffulc)
-  let q := (s.xf - s.fulc) * (s.fx - s.fnfc)
-  let p := (s.xf - s.fulc) * q - (s.xf - s.nfc) * r
-  let q := two * (q - r)
-  let p := if 0 < q then -p else p
-  let q := absv q
-  let r := s.e
-  let e := s.rat
+/-- acceptability test of the parabola and the step it yields (lines 92-101), for the
+    numerator `p`, the denominator `q = |q|`, `r` = the old `e` and the new `e`:
+    returns `(golden, rat, e)` -/
+def bmParAccept (s : BM α) (p q r e : α) : Bool × α × α :=
   if absv p < absv (half * q * r) ∧ q * (s.a - s.xf) < p ∧ p < q * (s.b - s.xf) then
     let rat := (p + 0) / q
     let x := s.xf + rat
@@ -255,6 +249,15 @@ def bmParabola (s : BM α) : Bool × α × α :=
       (false, s.tol1 * si, e)
     else (false, rat, e)
   else (true, s.rat, e)
+
+/-- the parabolic-fit block (lines 79-101): returns `(golden, rat, e)` -/
+def bmParabola (s : BM α) : Bool × α × α :=
+  let r := (s.xf - s.nfc) * (s.fx - s.ffulc)
+  let q := (s.xf - s.fulc) * (s.fx - s.fnfc)
+  let p := (s.xf - s.fulc) * q - (s.xf - s.nfc) * r
+  let q := two * (q - r)
+  let p := if 0 < q then -p else p
+  bmParAccept s p (absv q) s.e s.rat
 
 /-- choice of `(rat, e)` for this iteration (lines 77-108) -/
 def bmChoose (gm : α) (s : BM α) : α × α :=
@@ -379,11 +382,13 @@ def sumRows (n : Nat) (rows : List (List α)) : List α :=
   rows.foldl vadd (List.replicate n 0)
 
 /-- the nonshrink ordering rule (lines 285-289): insert `w` before the first `j` with
-    `f_val[w] < f_val[j]`, dropping the last entry -/
+    `p j` (`f_val[w] < f_val[j]`), dropping the last entry; unchanged when there is none -/
+def reinsertAux (p : Nat → Bool) (w : Nat) : List Nat → List Nat
+  | [] => []
+  | j :: rest => if p j then w :: (j :: rest).dropLast else j :: reinsertAux p w rest
+
 def reinsert (fval : List α) (w : Nat) (sind : List Nat) : List Nat :=
-  match sind.findIdx? (fun j => decide (fval.getD w 0 < fval.getD j 0)) with
-  | some i => sind.take i ++ [w] ++ (sind.drop i).dropLast
-  | none => sind
+  reinsertAux (fun j => decide (fval.getD w 0 < fval.getD j 0)) w sind
 
 def nmInit (f : List α → α) (P : NMP α) (bounds : List (α × α)) (verts : List (List α)) : NM α :=
   let n := verts.length - 1
@@ -392,10 +397,10 @@ def nmInit (f : List α → α) (P : NMP α) (bounds : List (α × α)) (verts :
   let xbar := vdiv (sumRows n ((sind.take n).map fun i => verts.getD i [])) (natA n)
   ⟨verts, fval, sind, xbar, 1, 0⟩
 
-/-- one pass of the `while True` body after the termination test (lines 222-293) -/
-def nmIter (f : List α → α) (P : NMP α) (bounds : List (α × α)) (s : NM α) : NM α :=
+/-- reflection / expansion / contraction (lines 224-261): `some (vertex, LV factor)` for an
+    accepted point, `none` for shrink -/
+def nmChoice (f : List α → α) (P : NMP α) (bounds : List (α × α)) (s : NM α) : Option (List α × α) :=
   let n := s.verts.length - 1
-  let nA : α := natA n
   let F := negF f P.pinf bounds
   let best := s.sind.getD 0 0
   let worst := s.sind.getD n 0
@@ -404,40 +409,70 @@ def nmIter (f : List α → α) (P : NMP α) (bounds : List (α × α)) (s : NM 
   let fworst := s.fval.getD worst 0
   let xr := vadd s.xbar (smul P.ρ (vsub s.xbar vworst))
   let fr := F xr
-  -- `some (vertex, LV factor)` for an accepted point, `none` for shrink
-  let acc : Option (List α × α) :=
-    if fbest ≤ fr ∧ fr < s.fval.getD (s.sind.getD (n - 1) 0) 0 then some (xr, P.ρ)
-    else if fr < fbest then
-      let xe := vadd s.xbar (smul P.χ (vsub xr s.xbar))
-      let fe := F xe
-      if fe < fr then some (xe, P.ρ * P.χ) else some (xr, P.ρ)
-    else
-      let temp := smul P.γ (vsub xr s.xbar)
-      let xc := if fr < fworst then vadd s.xbar temp else vsub s.xbar temp
-      let upd := if fr < fworst then P.ρ * P.γ else P.γ
-      let fc := F xc
-      if fc < pmin fr fworst then some (xc, upd) else none
-  match acc with
-  | some (v, fac) =>
-    let verts := s.verts.set worst v
-    let fval := s.fval.set worst (F v)
-    let sind := reinsert fval worst s.sind
-    let xbar := vadd s.xbar (vdiv (vsub v (verts.getD (sind.getD n 0) [])) nA)
-    ⟨verts, fval, sind, xbar, s.lv * fac, s.nit + 1⟩
-  | none =>
-    -- shrink: `for i in sort_ind[1:]` (sequential, so a repeated index is shrunk twice)
-    let vf := (s.sind.drop 1).foldl (fun (vf : List (List α) × List α) i =>
-      let vb := vf.1.getD best []
-      let vi := vadd vb (smul P.σ (vsub (vf.1.getD i []) vb))
-      (vf.1.set i vi, vf.2.set i (F vi))) (s.verts, s.fval)
-    let verts := vf.1
-    let fval := vf.2
-    -- `sort_ind[1:] = f_val[sort_ind[1:]].argsort() + 1` : positions + 1, as written
-    let sind := best :: (argsort ((s.sind.drop 1).map fun i => fval.getD i 0)).map (· + 1)
-    let vb := verts.getD best []
-    let xbar := vadd (vadd vb (smul P.σ (vsub s.xbar vb)))
-      (vdiv (vsub (verts.getD worst []) (verts.getD (sind.getD n 0) [])) nA)
-    ⟨verts, fval, sind, xbar, s.lv * powA P.σ n, s.nit + 1⟩
+  if fbest ≤ fr ∧ fr < s.fval.getD (s.sind.getD (n - 1) 0) 0 then some (xr, P.ρ)
+  else if fr < fbest then
+    let xe := vadd s.xbar (smul P.χ (vsub xr s.xbar))
+    let fe := F xe
+    if fe < fr then some (xe, P.ρ * P.χ) else some (xr, P.ρ)
+  else
+    let temp := smul P.γ (vsub xr s.xbar)
+    let xc := if fr < fworst then vadd s.xbar temp else vsub s.xbar temp
+    let upd := if fr < fworst then P.ρ * P.γ else P.γ
+    let fc := F xc
+    if fc < pmin fr fworst then some (xc, upd) else none
+
+/-- the worst vertex is replaced by `v` and the nonshrink ordering rule applied (lines 280-291) -/
+def nmReplace (f : List α → α) (P : NMP α) (bounds : List (α × α)) (s : NM α) (v : List α) (fac : α) : NM α :=
+  let n := s.verts.length - 1
+  let worst := s.sind.getD n 0
+  let verts := s.verts.set worst v
+  let fval := s.fval.set worst (negF f P.pinf bounds v)
+  let sind := reinsert fval worst s.sind
+  let xbar := vadd s.xbar (vdiv (vsub v (verts.getD (sind.getD n 0) [])) (natA n))
+  ⟨verts, fval, sind, xbar, s.lv * fac, s.nit + 1⟩
+
+/-- one step of `for i in sort_ind[1:]` of the shrink (sequential: `vertices[best]` is read live,
+    a repeated index is shrunk twice) -/
+def shrinkStep (F : List α → α) (σ : α) (best : Nat) (vf : List (List α) × List α) (i : Nat) :
+    List (List α) × List α :=
+  let vb := vf.1.getD best []
+  let vi := vadd vb (smul σ (vsub (vf.1.getD i []) vb))
+  (vf.1.set i vi, vf.2.set i (F vi))
+
+/-- re-sorting after the shrink, as repaired (commit eb9b5d4):
+    `sort_ind[:] = sort_ind[f_val[sort_ind].argsort(kind='mergesort')]` — a stable sort of the
+    vertex indices by their new values -/
+def shrinkResort (fval : List α) (sind : List Nat) : List Nat :=
+  (argsort (sind.map fun i => fval.getD i 0)).map fun p => sind.getD p 0
+
+/-- the rule BEFORE the repair: `sort_ind[1:] = f_val[sort_ind[1:]].argsort() + 1`
+    (positions + 1 instead of vertex indices, old best kept in front). Kept only to document
+    the defect (`sort_ind_not_a_permutation`); the driver does not use it. -/
+def shrinkResortOld (fval : List α) (sind : List Nat) : List Nat :=
+  sind.getD 0 0 :: (argsort ((sind.drop 1).map fun i => fval.getD i 0)).map (· + 1)
+
+/-- the shrink branch (lines 264-281) with the re-sorting rule as a parameter -/
+def nmShrinkWith (resort : List α → List Nat → List Nat)
+    (f : List α → α) (P : NMP α) (bounds : List (α × α)) (s : NM α) : NM α :=
+  let n := s.verts.length - 1
+  let best := s.sind.getD 0 0
+  let worst := s.sind.getD n 0
+  let vf := (s.sind.drop 1).foldl (shrinkStep (negF f P.pinf bounds) P.σ best) (s.verts, s.fval)
+  let sind := resort vf.2 s.sind
+  let vb := vf.1.getD best []
+  let xbar := vadd (vadd vb (smul P.σ (vsub s.xbar vb)))
+    (vdiv (vsub (vf.1.getD worst []) (vf.1.getD (sind.getD n 0) [])) (natA n))
+  ⟨vf.1, vf.2, sind, xbar, s.lv * powA P.σ n, s.nit + 1⟩
+
+/-- the shrink branch of the code as it is now -/
+def nmShrink (f : List α → α) (P : NMP α) (bounds : List (α × α)) (s : NM α) : NM α :=
+  nmShrinkWith shrinkResort f P bounds s
+
+/-- one pass of the `while True` body after the termination test (lines 222-293) -/
+def nmIter (f : List α → α) (P : NMP α) (bounds : List (α × α)) (s : NM α) : NM α :=
+  match nmChoice f P bounds s with
+  | some (v, fac) => nmReplace f P bounds s v fac
+  | none => nmShrink f P bounds s
 
 /-- the `while True` loop: final state and `fail` -/
 def nmLoop (f : List α → α) (P : NMP α) (bounds : List (α × α)) (maxIter : Nat) :
@@ -451,6 +486,24 @@ def nmLoop (f : List α → α) (P : NMP α) (bounds : List (α × α)) (maxIter
     let termf := decide (s.fval.getD worst 0 - s.fval.getD best 0 < P.tolf)
     let termx := decide (s.lv < P.tolx)
     if termx || termf || fail then (s, fail) else nmLoop f P bounds maxIter fuel (nmIter f P bounds s)
+
+/-- one pass / the loop with the PRE-repair shrink re-sorting (documentation of the defect only) -/
+def nmIterOld (f : List α → α) (P : NMP α) (bounds : List (α × α)) (s : NM α) : NM α :=
+  match nmChoice f P bounds s with
+  | some (v, fac) => nmReplace f P bounds s v fac
+  | none => nmShrinkWith shrinkResortOld f P bounds s
+
+def nmLoopOld (f : List α → α) (P : NMP α) (bounds : List (α × α)) (maxIter : Nat) :
+    Nat → NM α → NM α × Bool
+  | 0, s => (s, true)
+  | fuel + 1, s =>
+    let n := s.verts.length - 1
+    let fail := decide (maxIter ≤ s.nit)
+    let best := s.sind.getD 0 0
+    let worst := s.sind.getD n 0
+    let termf := decide (s.fval.getD worst 0 - s.fval.getD best 0 < P.tolf)
+    let termx := decide (s.lv < P.tolx)
+    if termx || termf || fail then (s, fail) else nmLoopOld f P bounds maxIter fuel (nmIterOld f P bounds s)
 
 /-- `nelder_mead(fun, x0, bounds, tol_f, tol_x, max_iter)` after `_check_params`:
     `(x, fun, success, nit, final_simplex)` -/
@@ -582,6 +635,18 @@ def handleSc (sc : Sc α) (toks : List String) : String :=
     | some A, some c, some k, some x0, some bnds, some tolf, some tolx, some mi, some k105, some zd, some pinf =>
       let P : NMP α := ⟨1, two, half, half, tolf, tolx, pinf⟩
       let bounds := bnds.map fun b => (b.getD 0 0, b.getD 1 0)
+      if kv r "trace" == some "sind" then
+        -- model-side observation of the final `sort_ind` (not visible in the code's results):
+        -- the list, "is a permutation", "sorts f_val", "best slot = worst slot"
+        let st := (nmLoop (quadObj A c k) P bounds mi (mi + 1)
+          (nmInit (quadObj A c k) P bounds (initSimplex k105 zd x0))).1
+        let N := st.verts.length
+        let perm := (List.range N).all fun i => st.sind.count i == 1
+        let srt := (List.range (N - 1)).all fun i =>
+          !decide (st.fval.getD (st.sind.getD (i + 1) 0) 0 < st.fval.getD (st.sind.getD i 0) 0)
+        showList toString st.sind ++ " " ++ showBool perm ++ " " ++ showBool srt ++ " " ++
+          showBool (st.sind.getD 0 0 == st.sind.getD (N - 1) 0)
+      else
       let (x, fv, ok, nit, verts) := nelderMead (quadObj A c k) P k105 zd bounds x0 mi
       showList sc.shw x ++ " " ++ sc.shw fv ++ " " ++ showBool ok ++ " " ++ toString nit ++ " " ++
         showMat sc.shw verts
